@@ -910,6 +910,14 @@ int sim_alloc_fail_fired(void)
 	return f;
 }
 
+#ifndef SIM_FLAVOUR_SIM
+/* the .so is linked with --wrap=memset/memcpy/memmove in every flavour; only the sim flavour's
+ * runtime does anything with them (ASan intercepts the real functions itself) */
+void *__wrap_memset(void *d, int c, size_t n) { return memset(d, c, n); }
+void *__wrap_memcpy(void *d, const void *s, size_t n) { return memcpy(d, s, n); }
+void *__wrap_memmove(void *d, const void *s, size_t n) { return memmove(d, s, n); }
+#endif
+
 /* ------------------------------------------------------------------------ */
 /* platform functions librfn expects the environment to provide              */
 /* ------------------------------------------------------------------------ */
